@@ -207,6 +207,20 @@ CHECKS = {
         design_ref='§7 C07',
         note=NOTE_COMMON + 'CPython compile/exec is the trusted model of "executable"; taint is an AST-shape comparison (constants normalised); for formula positions it is applied only to texts without a double quote (which ends the Excel literal).',
         technique='TLA+ model of Python string-literal lexing with TLC-checked emitter obligation, TLC-enumerated texts planted and observed, trace validation'),
+    'C02': dict(
+        category='model_checking',
+        text=('The specification contains the reference language twice: a printer (structured reference -> text: optional word / quoted title prefix, $ '
+              'markers, bijective base-26 column letters, rows, cell / area / whole-column forms) and a character-level parser of reference text, plus the '
+              'denotation (coordinates in row-major order; the formula's own sheet without prefix; whole columns over the used rows). TLC enumerates '
+              'references over columns A..XFD x rows 1..99999 x shapes x prefixes x $ combinations x own sheet and checks on every one RoundTrip (parse(print) '
+              '= reference) and AreaCardinality (size, strict row-major order, single sheet). Binding: each reference is read through =ref, INDEX at every '
+              'position, SUM, COUNT, SUMIFS, VLOOKUP / MATCH argument positions on a three-sheet workbook whose cells hold numbers encoding their own '
+              'coordinate (neighbours planted too, blanks inside whole-column areas): the coordinates read must be exactly the denotation, in order; '
+              'references to titles that do not exist must be rejected; random reference texts over random title sets and sheet orders are parsed and '
+              'denoted by the specification itself (Trace_C02); a sample goes through a real xlsx file.'),
+        design_ref='§7 C02',
+        note=NOTE_COMMON + 'Titles containing a quote character are out of scope. The in-memory workbook mirrors the structure Excel.parse delivers (C18 checks the reader).',
+        technique='TLA+ reference printer + parser + denotation with TLC-checked round trip, TLC-enumerated references replayed on coordinate-encoding workbooks, trace validation'),
 }
 
 NOT_APPLICABLE = {}
